@@ -7,9 +7,12 @@ package tsm1
 
 import (
 	"encoding/binary"
+	"fmt"
 	"math"
 	"testing"
 
+	"github.com/golang/snappy"
+	"github.com/influxdata/influxdb/tsdb"
 	"verifkit"
 )
 
@@ -66,10 +69,15 @@ func FuzzVerifC13Values(f *testing.F) {
 	})
 }
 
-// FuzzVerifC13DecodeFixpoint feeds arbitrary bytes to the block decoder. What a corrupt block
-// does to the decoder is outside the property; but whenever the bytes decode without error to
+// FuzzVerifC13DecodeFixpoint feeds arbitrary bytes to the block decoders. What a corrupt block
+// does to a decoder is outside the property; but whenever the bytes decode without error to
 // a sequence of the parser's domain, that sequence must round-trip through every encoder and
 // decoder (decode . encode . decode is a fixpoint).
+//
+// The fuzzed bytes are decoded with the stateless array decoders only. DecodeBlock takes its
+// decoders from a pool, and a BooleanDecoder keeps the error of a corrupt block forever (known
+// finding boolean-decoder-error-sticks-across-blocks, see TestVerifC13KFBooleanDecoderStickyError);
+// feeding corrupt blocks through it would poison the pool for the valid blocks checked afterwards.
 func FuzzVerifC13DecodeFixpoint(f *testing.F) {
 	for _, q := range []*vC13Seq{
 		{kind: 'f', ts: []int64{0, 10, 20, 35}, f: []float64{1, 1, 2.5, -0.0}},
@@ -84,10 +92,10 @@ func FuzzVerifC13DecodeFixpoint(f *testing.F) {
 		}
 	}
 	f.Fuzz(func(t *testing.T, blk []byte) {
-		if len(blk) > 1<<16 {
+		if len(blk) < 2 || len(blk) > 1<<16 || !vC13SaneBlock(blk) {
 			return
 		}
-		var vals []Value
+		q := &vC13Seq{}
 		var err error
 		func() {
 			defer func() {
@@ -95,38 +103,126 @@ func FuzzVerifC13DecodeFixpoint(f *testing.F) {
 					err = errPanicked
 				}
 			}()
-			vals, err = DecodeBlock(blk, nil)
+			switch blk[0] {
+			case BlockFloat64:
+				a := &tsdb.FloatArray{}
+				err = DecodeFloatArrayBlock(blk, a)
+				q.kind, q.ts, q.f = 'f', a.Timestamps, a.Values
+			case BlockInteger:
+				a := &tsdb.IntegerArray{}
+				err = DecodeIntegerArrayBlock(blk, a)
+				q.kind, q.ts, q.i = 'i', a.Timestamps, a.Values
+			case BlockUnsigned:
+				a := &tsdb.UnsignedArray{}
+				err = DecodeUnsignedArrayBlock(blk, a)
+				q.kind, q.ts, q.u = 'u', a.Timestamps, a.Values
+			case BlockBoolean:
+				a := &tsdb.BooleanArray{}
+				err = DecodeBooleanArrayBlock(blk, a)
+				q.kind, q.ts, q.b = 'b', a.Timestamps, a.Values
+			case BlockString:
+				a := &tsdb.StringArray{}
+				err = DecodeStringArrayBlock(blk, a)
+				q.kind, q.ts, q.s = 's', a.Timestamps, a.Values
+			default:
+				err = errPanicked
+			}
 		}()
-		if err != nil || len(vals) == 0 || len(vals) > 5000 {
+		n := len(q.ts)
+		if err != nil || n == 0 || n > 5000 || len(q.f)+len(q.i)+len(q.u)+len(q.b)+len(q.s) != n {
 			return
 		}
-		q := &vC13Seq{}
-		for _, v := range vals {
-			q.ts = append(q.ts, v.UnixNano())
-			switch x := v.Value().(type) {
-			case float64:
-				if math.IsNaN(x) || math.IsInf(x, 0) {
-					return // outside the parser's domain
-				}
-				q.kind, q.f = 'f', append(q.f, x)
-			case int64:
-				q.kind, q.i = 'i', append(q.i, x)
-			case uint64:
-				q.kind, q.u = 'u', append(q.u, x)
-			case bool:
-				q.kind, q.b = 'b', append(q.b, x)
-			case string:
-				q.kind, q.s = 's', append(q.s, x)
+		for _, x := range q.f {
+			if math.IsNaN(x) || math.IsInf(x, 0) {
+				return // outside the parser's domain
 			}
 		}
 		if _, e := vC13CheckBlock(q, map[string]bool{}); e != nil {
-			t.Fatalf("%s values decoded from fuzzed block, kind %c, %d values: %s", verifkit.Sig(e.sig), q.kind, len(vals), e.msg)
+			t.Fatalf("%s values decoded from fuzzed block, kind %c, %d values: %s", verifkit.Sig(e.sig), q.kind, n, e.msg)
 		}
 	})
 }
 
+// vC13SaneBlock keeps the fuzzer away from corrupt headers that make the decoders allocate
+// gigabytes (a run-length count or a snappy length taken from the bytes): that would kill the
+// fuzz worker, and what a corrupt block does to a decoder is outside the property.
+func vC13SaneBlock(blk []byte) bool {
+	tb, vb, err := unpackBlock(blk[1:])
+	if err != nil || len(tb) == 0 || len(vb) == 0 {
+		return false
+	}
+	rleCount := func(b []byte) (uint64, bool) { // header byte, 8 bytes first value, uvarint delta, uvarint count
+		if len(b) < 10 {
+			return 0, false
+		}
+		_, n := binary.Uvarint(b[9:])
+		if n <= 0 {
+			return 0, false
+		}
+		c, m := binary.Uvarint(b[9+n:])
+		return c, m > 0
+	}
+	if tb[0]>>4 == timeCompressedRLE {
+		if c, ok := rleCount(tb); !ok || c > 10000 {
+			return false
+		}
+	}
+	switch blk[0] {
+	case BlockInteger, BlockUnsigned:
+		if vb[0]>>4 == intCompressedRLE {
+			if c, ok := rleCount(vb); !ok || c > 10000 {
+				return false
+			}
+		}
+	case BlockString:
+		if n, err := snappy.DecodedLen(vb[1:]); err != nil || n > 1<<20 {
+			return false
+		}
+	}
+	return true
+}
+
 type vC13PanicErr struct{}
 
-func (vC13PanicErr) Error() string { return "decoder panicked on a corrupt block" }
+func (vC13PanicErr) Error() string { return "decoder panicked on (or does not know) a corrupt block" }
 
 var errPanicked error = vC13PanicErr{}
+
+// TestVerifC13KFBooleanDecoderStickyError is the directed campaign for the known finding: a
+// BooleanDecoder that once saw a corrupt value section keeps its error, so the next, valid
+// block decoded with the same (pooled) decoder is reported as corrupt. The test uses its own
+// decoder value, never the pool.
+func TestVerifC13KFBooleanDecoderStickyError(t *testing.T) {
+	st := verifkit.For("C13", "TestVerifC13KFBooleanDecoderStickyError", "directed: one BooleanDecoder is given a corrupt value section (count varint unterminated) and then the encoding of a valid boolean sequence; reproduced when the valid sequence no longer decodes")
+	defer st.Flush()
+	for _, n := range []int{1, 8, 9, 24} {
+		enc := NewBooleanEncoder(n)
+		want := make([]bool, n)
+		for i := range want {
+			want[i] = i%3 == 0
+			enc.Write(want[i])
+		}
+		valid, err := enc.Bytes()
+		if err != nil {
+			t.Fatalf("%s BooleanEncoder.Bytes: %v", verifkit.Sig("encode-error"), err)
+		}
+		var d BooleanDecoder
+		d.SetBytes([]byte{0x10, 0x80}) // header + a varint that never ends
+		firstErr := d.Error()
+		d.SetBytes(valid)
+		var got []bool
+		for d.Next() {
+			got = append(got, d.Read())
+		}
+		reproduced := ""
+		if firstErr != nil && (d.Error() != nil || len(got) != n) {
+			reproduced = fmt.Sprintf("after a corrupt block (%v) a valid block of %d booleans decodes to %d values, err %v", firstErr, n, len(got), d.Error())
+		}
+		st.Case(true, fmt.Sprint(n), "kf-input")
+		if reproduced != "" {
+			st.KnownReproduced("boolean-decoder-error-sticks-across-blocks", reproduced)
+			st.Class("kf-reproduced", 1)
+		}
+		st.Sample(map[string]interface{}{"n": n, "reproduced": reproduced})
+	}
+}
